@@ -39,7 +39,8 @@ CONSTANTS PRE,      \* bytes kept before the offending byte in the excerpt   (48
           BUFSZ,    \* getContents: re-reading step of seekable input     (16384)
           THRESH,   \* jsonInputIter.Next: reset of the tee buffer        (16384)
           MINREAD,  \* encoding/json Decoder.refill: minRead                (512)
-          FIXRA,    \* TRUE: the repair "discard only what the decoder consumed" (D9)
+          FIXRA,    \* TRUE: "discard only what the decoder consumed" = the code since commit 8c982d6 (repair of D9);
+                    \* FALSE: the former buf.Reset(), kept as a negative control of the model
           FIXCR     \* TRUE: the repair "count line terminators, not LF bytes" (D13)
 
 LF == 10
